@@ -165,7 +165,17 @@ theorem cost_subterms : ∀ k (t : Term), t.size < k → cost termGraph t.subter
       have h2 : (List.map (cost termGraph ∘ Term.subterms) args) = List.map (fun a => cost termGraph a.subterms) args := rfl
       rw [h2]; omega
 
-/-- the proved iteration budget `2·edges + 2`, for a term: twice its tree size -/
+/-- the distinct sub-terms of `t` = the nodes of its DAG -/
+def dagNodes (t : Term) : List Term := t.subterms.eraseDups
+
+/-- `2·E + 2`, `E` = number of edges of the DAG of `t` (each distinct sub-term counted once): the iteration and
+    push bound of one walk, and a sufficient budget -/
+def dagBound (t : Term) : Nat := 2 * cost termGraph (dagNodes t) + 2
+
+theorem covers_dagNodes (d : Term → Bool) (t : Term) : Covers termGraph d t (dagNodes t) :=
+  fun x h => List.mem_eraseDups.mpr (covers_subterms_direct d t x h)
+
+/-- for a tree (no sharing) the bound is twice the tree size -/
 theorem fuel_of_size (t : Term) : 2 * cost termGraph t.subterms + 2 = 2 * t.size := by
   have := cost_subterms (t.size + 1) t (Nat.lt_succ_self _); omega
 
@@ -193,29 +203,33 @@ theorem foldIdle_init (d : Term → Bool) (F : Term → R) : FoldIdle d F (WStat
 
 /-- **walk_eq_fold**.  Let `F` be any bottom-up function on terms, `F (.node op args p) = g (.node op args p) (args.map F)`.
     The memoised, iterative `DagWalker.walk` whose callbacks compute `g`, started on any term `t` from any idle walker
-    whose memo holds values of `F` (closed under arguments), with an iteration budget of `2·size t`:
+    whose memo holds values of `F` (closed under arguments), with an iteration budget of `dagBound t` =
+    `2·(edges of the DAG of t) + 2` (distinct sub-terms counted once -- not the tree size):
     * returns `F t`;
     * invokes the callback exactly once on each distinct sub-term of `t` that was not memoised before, on nothing else;
+    * performs at most `dagBound t` loop iterations and pushes: linear in the DAG, even where the tree is exponential;
     * is idle again afterwards, its memo still holding values of `F` only. -/
 theorem walk_eq_fold (g : Term → List R → R) (F : Term → R) (hF : ∀ t, F t = g t (t.args.map F))
     (inval shortcut : Bool) (fuel : Nat) (t : Term) (s : WState M Term) (hi : FoldIdle (fun _ => false) F s)
-    (hfuel : 2 * t.size ≤ fuel) :
+    (hfuel : dagBound t ≤ fuel) :
     let r := walk termGraph (fun _ => false) (fun _ => cbOf (E := E) g) inval shortcut fuel t s
     r.1 = .ok (F t) ∧
     (∃ new, r.2.trace = new ++ s.trace ∧ new.Nodup ∧
         (∀ x, x ∈ new ↔ (x ∈ t.subterms ∧ look s.memo x = none)) ∧ r.2.calls = s.calls + new.length) ∧
+    (r.2.iters ≤ s.iters + dagBound t ∧ r.2.pushes ≤ s.pushes + dagBound t) ∧
     FoldIdle (fun _ => false) F r.2 := by
   intro r
   have hF' : ∀ t, F t = if (fun _ => false) t then g t [] else g t (t.args.map F) := by intro t; simp [hF t]
   have hidle := idle_of_foldIdle (E := E) (fun _ => false) g F hF' s hi
   have hsp := spec_eq_fold (E := E) (fun _ => false) g F hF' (t.size + 1) t (Nat.lt_succ_self _)
-  have hfu : 2 * cost termGraph t.subterms + 2 ≤ fuel := by rw [fuel_of_size]; exact hfuel
+  have hcov := covers_dagNodes (fun _ => false) t
   have h1 := walk_correct termGraph (fun _ => false) (cbOf (E := E) g) inval shortcut fuel t s hidle
-    t.subterms (covers_subterms t) hfu
-  refine ⟨by rw [h1, hsp]; rfl, ?_, ?_⟩
+    (dagNodes t) hcov hfuel
+  refine ⟨by rw [h1, hsp]; rfl, ?_, ?_, ?_⟩
   · obtain ⟨new, h2, h3, h4, h5⟩ := calls_eq_distinct termGraph (fun _ => false) (cbOf (E := E) g) inval shortcut
-      fuel t s hidle t.subterms (covers_subterms t) hfu (F t) hsp
+      fuel t s hidle (dagNodes t) hcov hfuel (F t) hsp
     exact ⟨new, h2, h3, fun x => by rw [h4 x, desc_iff_subterm], h5⟩
+  · exact steps_le_2E termGraph (fun _ => false) (cbOf (E := E) g) inval shortcut fuel t s hidle (dagNodes t) hcov hfuel
   · have h6 := walk_idle termGraph (fun _ => false) _ (cbOf (E := E) g) (refines_pure _) inval shortcut fuel t s hidle
     refine ⟨?_, h6.closed.down, h6.stack⟩
     intro n r' hr
@@ -229,16 +243,16 @@ theorem walk_eq_fold (g : Term → List R → R) (F : Term → R) (hF : ∀ t, F
 theorem walk_eq_fold_direct (d : Term → Bool) (g : Term → List R → R) (F : Term → R)
     (hF : ∀ t, F t = if d t then g t [] else g t (t.args.map F))
     (inval shortcut : Bool) (fuel : Nat) (t : Term) (s : WState M Term) (hi : FoldIdle d F s)
-    (hfuel : 2 * t.size ≤ fuel) :
+    (hfuel : dagBound t ≤ fuel) :
     let r := walk termGraph d (fun _ => cbOf (E := E) g) inval shortcut fuel t s
-    r.1 = .ok (F t) ∧ FoldIdle d F r.2 := by
+    r.1 = .ok (F t) ∧ (r.2.iters ≤ s.iters + dagBound t ∧ r.2.pushes ≤ s.pushes + dagBound t) ∧ FoldIdle d F r.2 := by
   intro r
   have hidle := idle_of_foldIdle (E := E) d g F hF s hi
   have hsp := spec_eq_fold (E := E) d g F hF (t.size + 1) t (Nat.lt_succ_self _)
-  have hfu : 2 * cost termGraph t.subterms + 2 ≤ fuel := by rw [fuel_of_size]; exact hfuel
-  have h1 := walk_correct termGraph d (cbOf (E := E) g) inval shortcut fuel t s hidle t.subterms
-    (covers_subterms_direct d t) hfu
-  refine ⟨by rw [h1, hsp]; rfl, ?_⟩
+  have h1 := walk_correct termGraph d (cbOf (E := E) g) inval shortcut fuel t s hidle (dagNodes t)
+    (covers_dagNodes d t) hfuel
+  refine ⟨by rw [h1, hsp]; rfl,
+    steps_le_2E termGraph d (cbOf (E := E) g) inval shortcut fuel t s hidle (dagNodes t) (covers_dagNodes d t) hfuel, ?_⟩
   have h6 := walk_idle termGraph d _ (cbOf (E := E) g) (refines_pure _) inval shortcut fuel t s hidle
   refine ⟨?_, h6.closed.down, h6.stack⟩
   intro n r' hr
@@ -285,6 +299,35 @@ theorem dagO_fold (t : Term) : dagO t = (fun (n : Term) rs => n :: rs.flatten) t
   cases t with
   | node op args p => rw [dagO]; rfl
 
+/-! ### the overriding walkers as instances of the graph constructors -/
+
+/-- `PolarityCNFizer._get_children` on keys `(formula, polarity)`: negation flips the polarity, implication flips
+    it for the antecedent, `iff` and the condition of `ite` are visited with both polarities, theory atoms are leaves -/
+def polChildren : Bool × Term → List (Bool × Term)
+  | (pol, .node .not [a] _) => [(!pol, a)]
+  | (pol, .node .implies [a, b] _) => [(!pol, a), (pol, b)]
+  | (pol, .node .iff [a, b] _) => [(pol, a), (pol, b), (!pol, a), (!pol, b)]
+  | (pol, .node .and args _) => args.map (fun a => (pol, a))
+  | (pol, .node .or args _) => args.map (fun a => (pol, a))
+  | (pol, .node .ite [i, t, e] _) => [(pol, i), (!pol, i), (pol, t), (pol, e)]
+  | _ => []
+
+theorem polChildren_args (k : Bool × Term) (c : Bool × Term) (h : c ∈ polChildren k) : c.2 ∈ k.2.args := by
+  obtain ⟨pol, t⟩ := k
+  cases t with
+  | node op args p =>
+    unfold polChildren at h
+    split at h <;> simp_all [Term.args] <;> (try rcases h with rfl | rfl | rfl | rfl <;> simp) <;>
+      (try rcases h with rfl | rfl <;> simp) <;> (try (obtain ⟨a, ha, rfl⟩ := h; exact ha))
+
+/-- the key space of the polarity CNF-izer: `Graph.tagged` (keys `(pol, formula)`) with `Graph.withChildren` -/
+def polGraph : Graph (Bool × Term) :=
+  (termGraph.tagged Bool).withChildren polChildren (by
+    intro n c h
+    have := polChildren_args n c h
+    have := termGraph.acyclic n.2 c.2 this
+    simpa [Graph.tagged] using this)
+
 /-! ### the named instances: oracles -/
 
 section named
@@ -293,23 +336,25 @@ variable {M E : Type}
 /-- **freevars_walk_eq**: `FreeVarsOracle.walk` (memo kept, keyed by the formula) computes the recursive `fvO`. -/
 theorem freevars_walk_eq [MemoLike M Term (List Sym)] [LawfulMemo M Term (List Sym)]
     (inval shortcut : Bool) (fuel : Nat) (t : Term) (s : WState M Term)
-    (hi : FoldIdle (fun _ => false) fvO s) (hfuel : 2 * t.size ≤ fuel) :
+    (hi : FoldIdle (fun _ => false) fvO s) (hfuel : dagBound t ≤ fuel) :
     let r := walk termGraph (fun _ => false)
       (fun _ => cbOf (E := E) (fun n rs => fvNode n.op n.payload rs)) inval shortcut fuel t s
     r.1 = .ok (fvO t) ∧
     (∃ new, r.2.trace = new ++ s.trace ∧ new.Nodup ∧
         (∀ x, x ∈ new ↔ (x ∈ t.subterms ∧ look s.memo x = none)) ∧ r.2.calls = s.calls + new.length) ∧
+    (r.2.iters ≤ s.iters + dagBound t ∧ r.2.pushes ≤ s.pushes + dagBound t) ∧
     FoldIdle (fun _ => false) fvO r.2 :=
   walk_eq_fold _ fvO fvO_fold inval shortcut fuel t s hi hfuel
 
 /-- the same walk with the callbacks of the reference definition computes `Term.fv` -/
 theorem termfv_walk_eq [MemoLike M Term (List Sym)] [LawfulMemo M Term (List Sym)]
     (inval shortcut : Bool) (fuel : Nat) (t : Term) (s : WState M Term)
-    (hi : FoldIdle (fun _ => false) Term.fv s) (hfuel : 2 * t.size ≤ fuel) :
+    (hi : FoldIdle (fun _ => false) Term.fv s) (hfuel : dagBound t ≤ fuel) :
     let r := walk termGraph (fun _ => false) (fun _ => cbOf (E := E) fvCoreNode) inval shortcut fuel t s
     r.1 = .ok t.fv ∧
     (∃ new, r.2.trace = new ++ s.trace ∧ new.Nodup ∧
         (∀ x, x ∈ new ↔ (x ∈ t.subterms ∧ look s.memo x = none)) ∧ r.2.calls = s.calls + new.length) ∧
+    (r.2.iters ≤ s.iters + dagBound t ∧ r.2.pushes ≤ s.pushes + dagBound t) ∧
     FoldIdle (fun _ => false) Term.fv r.2 :=
   walk_eq_fold _ Term.fv termfv_fold inval shortcut fuel t s hi hfuel
 
@@ -317,19 +362,20 @@ theorem termfv_walk_eq [MemoLike M Term (List Sym)] [LawfulMemo M Term (List Sym
     number on a diamond chain -- with one callback per distinct sub-term. -/
 theorem size_tree_walk_eq [MemoLike M Term Nat] [LawfulMemo M Term Nat]
     (inval shortcut : Bool) (fuel : Nat) (t : Term) (s : WState M Term)
-    (hi : FoldIdle (fun _ => false) treeO s) (hfuel : 2 * t.size ≤ fuel) :
+    (hi : FoldIdle (fun _ => false) treeO s) (hfuel : dagBound t ≤ fuel) :
     let r := walk termGraph (fun _ => false)
       (fun _ => cbOf (E := E) (fun (_ : Term) rs => 1 + rs.sum)) inval shortcut fuel t s
     r.1 = .ok (treeO t) ∧
     (∃ new, r.2.trace = new ++ s.trace ∧ new.Nodup ∧
         (∀ x, x ∈ new ↔ (x ∈ t.subterms ∧ look s.memo x = none)) ∧ r.2.calls = s.calls + new.length) ∧
+    (r.2.iters ≤ s.iters + dagBound t ∧ r.2.pushes ≤ s.pushes + dagBound t) ∧
     FoldIdle (fun _ => false) treeO r.2 :=
   walk_eq_fold _ treeO treeO_fold inval shortcut fuel t s hi hfuel
 
 /-- `walk_count_dag`: the walk computes the list `dagO` whose distinct members `get_size` counts -/
 theorem size_dag_walk_eq [MemoLike M Term (List Term)] [LawfulMemo M Term (List Term)]
     (inval shortcut : Bool) (fuel : Nat) (t : Term) (s : WState M Term)
-    (hi : FoldIdle (fun _ => false) dagO s) (hfuel : 2 * t.size ≤ fuel) :
+    (hi : FoldIdle (fun _ => false) dagO s) (hfuel : dagBound t ≤ fuel) :
     (walk termGraph (fun _ => false)
       (fun _ => cbOf (E := E) (fun (n : Term) rs => n :: rs.flatten)) inval shortcut fuel t s).1 = .ok (dagO t) :=
   (walk_eq_fold _ dagO dagO_fold inval shortcut fuel t s hi hfuel).1
